@@ -43,6 +43,7 @@ func init() {
 
 type c16Impl struct {
 	inst   int
+	world  int // distinguishes the implementors of successive worlds in one process (late closers)
 	fail   bool
 	execs  int32
 	terms  int32
@@ -58,11 +59,11 @@ func (p *c16Impl) Activate(a bus.Activation, helper pong.PingPongSignalHelper) e
 }
 func (p *c16Impl) OnTerminate() {
 	atomic.AddInt32(&p.terms, 1)
-	vhook.Emit("c16", nil, "onterminate", "inst", p.inst)
+	vhook.Emit("c16", nil, "onterminate", "inst", p.inst, "world", p.world)
 }
 func (p *c16Impl) Hello(a string) (string, error) {
 	atomic.AddInt32(&p.execs, 1)
-	vhook.Emit("c16", nil, "exec", "inst", p.inst, "tag", a)
+	vhook.Emit("c16", nil, "exec", "inst", p.inst, "tag", a, "world", p.world)
 	return "re:" + a, nil
 }
 func (p *c16Impl) Ping(a string) error { return p.helper.SignalPong(a) }
@@ -507,7 +508,16 @@ func cmdC16Conc(args []string) {
 	res.Emit()
 }
 
-var c16Scenarios = []string{"remove|call", "remove|remove", "remove|rterminate", "rterminate|call", "add|add", "rterminate|rterminate", "remove|call|add", "svcterminate|call"}
+var c16Scenarios = []string{"remove|call", "remove|remove", "remove|rterminate", "rterminate|call", "add|add", "rterminate|rterminate", "remove|call|add", "svcterminate|call",
+	"remove|remove|remove|remove", "remove|remove|rterminate|call", "rterminate|rterminate|remove|remove", "remove|remove|add|call",
+	"svcterminate|remove|remove|call", "add|add|add|remove", "remove|rterminate|call|call", "svcterminate|svcterminate|rterminate"}
+
+// how the racers of a round are started: lock convoy behind the held write lock (twice as
+// often), behind the held read lock, or free-running (c16lock.go)
+// racers started in a convoy / of those, seen blocked on the service's lock when it was released
+var convoyRacers, convoyBlocked int
+
+var c16Starts = []string{"w", "r", "w", "free"}
 
 func cmdC16ConcChild(args []string) {
 	out := openChildOut()
@@ -515,13 +525,16 @@ func cmdC16ConcChild(args []string) {
 	b, _ := strconv.Atoi(args[2])
 	defer cleanupSockets()
 	ops := 0
+	starts := map[string]int{}
 	for r := a; r < b; r++ {
 		sc := c16Scenarios[r%len(c16Scenarios)]
-		out.Case(r, map[string]interface{}{"round": r, "seed": hlib.Seed(), "scenario": sc})
-		recs, n, f := runServiceRound(r, sc, hlib.Seed())
+		mode := c16Starts[(r/len(c16Scenarios)+r)%len(c16Starts)]
+		out.Case(r, map[string]interface{}{"round": r, "seed": hlib.Seed(), "scenario": sc, "start": mode})
+		recs, n, f, started := runServiceRound(r, sc, mode, hlib.Seed())
+		starts[started]++
 		ops += n
 		if f != nil {
-			out.Fail(f.class, f.detail, map[string]interface{}{"round": r, "seed": hlib.Seed(), "scenario": sc, "trace": recs})
+			out.Fail(f.class, f.detail, map[string]interface{}{"round": r, "seed": hlib.Seed(), "scenario": sc, "start": started, "trace": recs})
 			continue
 		}
 		var sb strings.Builder
@@ -542,13 +555,21 @@ func cmdC16ConcChild(args []string) {
 	out.Eval(b - a)
 	out.Distinct(b - a)
 	out.Extra("operations", float64(ops))
+	for k, v := range starts {
+		out.Extra("start_"+k, float64(v))
+	}
+	out.Extra("convoy_racers", float64(convoyRacers))
+	out.Extra("convoy_racers_seen_blocked", float64(convoyBlocked))
 	out.End()
 }
 
 // runServiceRound: two objects are added, then the operations of the scenario race on
 // object X (the second one); afterwards the quiescent state is probed.  The hook events of
 // the service (under its lock), of the Receive path and of the implementors give the trace.
-func runServiceRound(round int, scenario string, seed int64) ([]uRec, int, *seqFail) {
+// The racers start as a lock convoy (start = "w" / "r": the harness holds the service's write /
+// read lock until all of them are blocked inside the service) or free-running; the start
+// really used is returned ("free-fallback" when the lock could not be reached).
+func runServiceRound(round int, scenario, start string, seed int64) ([]uRec, int, *seqFail, string) {
 	w, err := newC16World(nil)
 	if err != nil {
 		hlib.Fatal("world: %v", err)
@@ -583,38 +604,50 @@ func runServiceRound(round int, scenario string, seed int64) ([]uRec, int, *seqF
 	}
 	_, idY, err := add()
 	if err != nil {
-		return nil, 0, &seqFail{"service/conc/add-refused", err.Error()}
+		return nil, 0, &seqFail{"service/conc/add-refused", err.Error()}, start
 	}
 	kX, idX, err := add()
 	if err != nil {
-		return nil, 0, &seqFail{"service/conc/add-refused", err.Error()}
+		return nil, 0, &seqFail{"service/conc/add-refused", err.Error()}, start
 	}
-	// a second caller connection so that concurrent calls do not share a client
-	caller2, err := newRawConn(w.addr, w.sid, 0)
-	if err != nil {
-		hlib.Fatal("conn: %v", err)
-	}
-	defer caller2.ep.Close()
 	type outcome struct {
 		op  string
 		err error
 		id  uint32
 	}
 	parts := strings.Split(scenario, "|")
+	// every remote racer has its own connection: a message blocked inside the service holds up
+	// the ones behind it on the same connection
+	conns := make([]*rawConn, len(parts))
+	for i, p := range parts {
+		if p == "call" || p == "rterminate" {
+			if conns[i], err = newRawConn(w.addr, w.sid, 0); err != nil {
+				hlib.Fatal("conn: %v", err)
+			}
+			defer conns[i].ep.Close()
+		}
+	}
 	res := make([]outcome, len(parts))
 	var wg sync.WaitGroup
-	start := make(chan struct{})
+	var ready int32
+	sleeps := make([]time.Duration, len(parts))
+	for i := range sleeps {
+		if start == "free" && rng.Intn(2) == 0 {
+			sleeps[i] = time.Duration(rng.Intn(200)) * time.Microsecond
+		}
+	}
+	cv := startConvoy(w.svc, start)
+	if cv.mode != start {
+		start = "free-fallback"
+	}
 	for i, p := range parts {
 		wg.Add(1)
 		go func(i int, p string) {
 			defer wg.Done()
-			conn := w.caller
-			if i%2 == 1 {
-				conn = caller2
-			}
-			<-start
-			if rng.Intn(2) == 0 {
-				time.Sleep(time.Duration(rng.Intn(200)) * time.Microsecond)
+			conn := conns[i]
+			atomic.AddInt32(&ready, 1)
+			if sleeps[i] > 0 {
+				time.Sleep(sleeps[i])
 			}
 			o := outcome{op: p}
 			switch p {
@@ -634,9 +667,11 @@ func runServiceRound(round int, scenario string, seed int64) ([]uRec, int, *seqF
 			res[i] = o
 		}(i, p)
 	}
-	rngSleep := time.Duration(rng.Intn(100)) * time.Microsecond
-	time.Sleep(rngSleep)
-	close(start)
+	cv.release(&ready, len(parts), len(parts))
+	if cv.mode != "free" {
+		convoyRacers += len(parts)
+		convoyBlocked += cv.Blocked
+	}
 	fin := make(chan struct{})
 	go func() { wg.Wait(); close(fin) }()
 	select {
@@ -676,7 +711,7 @@ func runServiceRound(round int, scenario string, seed int64) ([]uRec, int, *seqF
 			fail = &seqFail{cl, fmt.Sprintf("scenario %s: OnTerminate of the removed object ran %d time(s)", scenario, t)}
 		}
 	}
-	if scenario != "svcterminate|call" {
+	if !strings.Contains(scenario, "svcterminate") {
 		if _, err := w.caller.hello(w.meta, idY, "other"); err != nil && fail == nil {
 			fail = &seqFail{"service/conc/other-object-affected", fmt.Sprintf("scenario %s: the untouched object no longer answers: %v", scenario, err)}
 		}
@@ -684,7 +719,7 @@ func runServiceRound(round int, scenario string, seed int64) ([]uRec, int, *seqF
 			fail = &seqFail{"service/conc/other-object-affected", fmt.Sprintf("scenario %s: OnTerminate of the untouched object ran %d time(s)", scenario, t)}
 		}
 	}
-	if scenario == "add|add" || scenario == "remove|call|add" {
+	if strings.Contains(scenario, "add") {
 		seen := map[uint32]int{idY: 2, idX: kX}
 		if removedX {
 			delete(seen, idX)
@@ -759,5 +794,5 @@ func runServiceRound(round int, scenario string, seed int64) ([]uRec, int, *seqF
 	}
 	mu.Unlock()
 	recs = append(recs, uRec{K: "end", Round: round})
-	return recs, n, fail
+	return recs, n, fail, start
 }
